@@ -94,7 +94,12 @@ def one_target(col, rng):
             run_case(col, rng, recipe, shared, segs, len(segs), 'present')
         for k in range(len(segs) + 1):
             node = nodes[k]
-            bad = 'zz_absent' if not isinstance(node, (list, tuple)) else rng.choice([99, -99, 'x9'])
+            if isinstance(node, (list, tuple)):
+                n = len(node)
+                # (boundary values: just past either end, and the window a hand-rolled negative-index fix-up would map back in range)
+                bad = rng.choice([n, n + 1, -n - 1, -n - 2, -2 * n, -2 * n - 1, 99, -99, 'x9'] if n else [0, -1, 1, 'x9'])
+            else:
+                bad = 'zz_absent'
             if rng.random() < 0.7:
                 run_case(col, rng, recipe, shared, segs[:k] + [bad], k, 'absent-final')
             if rng.random() < 0.6:
